@@ -244,8 +244,18 @@ func (c *sioCouplings) Stop(context.Context) error                             {
 
 const sioWatchdog = 90 * time.Second
 
+var sioCrewCount int
+
+// Every other crew runs its machines under a step limit of 2: a recorder (and each service machine) needs exactly two
+// steps per message, so its walks stop at the limit, right after the action, instead of finding nothing more to do.
+// What such a walk emitted and where it left the machine count all the same.
 func sioNewCrew(ctx context.Context) (*sio.Crew, error) {
-	return sio.NewCrew(ctx, &sio.CrewConf{Ctl: core.DefaultControl},
+	sioCrewCount++
+	ctl := core.DefaultControl
+	if sioCrewCount%2 == 0 {
+		ctl = &core.Control{Limit: 2}
+	}
+	return sio.NewCrew(ctx, &sio.CrewConf{Ctl: ctl},
 		&sioCouplings{in: make(chan interface{}), out: make(chan *sio.Result)})
 }
 
